@@ -4,4 +4,4 @@ Require Extraction.
 Require Import ExtrOcamlBasic ExtrOcamlString.
 From Slinky Require Import Model.Types Model.Parse Model.Dump Model.Exports Model.LdSem Model.LdDump Spec.C16.
 Extraction Language OCaml.
-Extraction "specmodel.ml" run_case cli_run jcli run_link valid Known_C16_null_plain_string.
+Extraction "specmodel.ml" run_case cli_run jcli run_link valid Known_C16_null_plain_string Known_C16_null_forbidden_field.
